@@ -107,7 +107,9 @@ def step (s : St) : Op → St × Option (List (Key × Detyped))
   | .setList k l =>
     ({ s with vals := setVal s.vals k (.list s.nextRef), heap := heapSet s.heap s.nextRef l,
               nextRef := s.nextRef + 1, cache := none }, none)
-  | .del k => ({ s with vals := s.vals.filter (fun p => p.1 != k), cache := none }, none)
+  | .del k =>
+    -- `del $K` of an unset variable raises KeyError and touches nothing
+    (if (s.vals.lookup k).isSome then { s with vals := s.vals.filter (fun p => p.1 != k), cache := none } else s, none)
   | .getitem k => (if isMutable s k then { s with cache := none } else s, none)
   | .mutateVia k x =>
     match s.vals.lookup k with
